@@ -109,9 +109,8 @@ def explore(ctx, tier, search=False):
         # object answers all 32 requests of the dataset, so a response that depends on earlier requests shows up
         lazy = False
         if di % 2 and any(v["k"] == "sq" and v["rows"] for v in spec["vars"]):
-            # "plain" lazy sequences with selections run into the open C04 findings (empty result, column-vs-column);
-            # they are enabled once those are repaired
-            lazy = "ranged" if di % 4 == 3 else False
+            # "plain" lazy sequences take selections too (the C04 findings empty result / column-vs-column are repaired)
+            lazy = "ranged" if di % 4 == 3 else "plain"
         app = BaseHandler(G.build(spec, lazy=lazy))
         app_attr = BaseHandler(attributed(spec))
         das_plain = G.run_request(app_attr, "/d.das", "")
